@@ -105,6 +105,23 @@ pub(crate) fn handle_canon_executed(
     epilog(canon_stream, canon_result_cid, exec_ctx, trace_ctx)
 }
 
+/// It's necessary to resolve the peer id before accessing state, because it would be
+/// undeterministic otherwise: a catchable error raised after the state was taken leaves
+/// the state, which belongs to another instruction then, behind the position of the canon
+/// (the call instruction checks its arguments first for the same reason).
+/// A join error is left to the handlers above.
+pub(crate) fn check_peer_id(
+    peer_id: &ResolvableToPeerIdVariable<'_>,
+    exec_ctx: &ExecutionCtx<'_>,
+) -> ExecutionResult<()> {
+    use crate::execution_step::Joinable;
+
+    match resolve_peer_id_to_string(peer_id, exec_ctx) {
+        Err(error) if !error.is_joinable() => Err(error),
+        _ => Ok(()),
+    }
+}
+
 pub(crate) fn handle_unseen_canon(
     epilog: &CanonEpilogClosure<'_>,
     create_canon_stream: &CreateCanonStreamClosure<'_>,
